@@ -340,6 +340,52 @@ func (g *guardCtx) earlyExitFacts(list []ast.Stmt, child ast.Node) []fact {
 }
 
 // guardOfDeref: why `*x` cannot fault, or "".
+// receiverNeverNil: `recv` is the pointer receiver of the enclosing unexported method, and every call of that method
+// in the library is made on an addressable value (a variable, field or element of non-pointer type: the compiler
+// takes its address) or on an explicit `&x` - never on a pointer that could be nil.
+func (g *guardCtx) receiverNeverNil(recv ast.Expr, fd *ast.FuncDecl) bool {
+	id, ok := unparen(recv).(*ast.Ident)
+	if !ok || fd == nil || fd.Recv == nil || len(fd.Recv.List) != 1 || len(fd.Recv.List[0].Names) != 1 || fd.Name.IsExported() {
+		return false
+	}
+	if g.info.ObjectOf(fd.Recv.List[0].Names[0]) != g.info.ObjectOf(id) || g.info.ObjectOf(id) == nil {
+		return false
+	}
+	if g.assignsTo(fd.Body, id.Name) {
+		return false
+	}
+	obj := g.info.ObjectOf(fd.Name)
+	calls, allOK := 0, true
+	for _, p := range g.c.pkgs {
+		for _, file := range p.Syntax {
+			ast.Inspect(file, func(nd ast.Node) bool {
+				call, ok := nd.(*ast.CallExpr)
+				if !ok {
+					return true
+				}
+				sel, ok := unparen(call.Fun).(*ast.SelectorExpr)
+				if !ok || p.TypesInfo.ObjectOf(sel.Sel) != obj || obj == nil {
+					return true
+				}
+				calls++
+				if u, ok := unparen(sel.X).(*ast.UnaryExpr); ok && u.Op == token.AND {
+					return true
+				}
+				t := p.TypesInfo.TypeOf(sel.X)
+				if t == nil {
+					allOK = false
+					return true
+				}
+				if _, isPtr := t.Underlying().(*types.Pointer); isPtr {
+					allOK = false
+				}
+				return true
+			})
+		}
+	}
+	return calls > 0 && allOK
+}
+
 func (g *guardCtx) guardOfDeref(x *ast.StarExpr, stack []ast.Node) string {
 	key := g.str(unparen(x.X))
 	if u, ok := unparen(x.X).(*ast.UnaryExpr); ok && u.Op == token.AND {
